@@ -145,15 +145,151 @@ Definition year_ok (n : N) : bool :=
   | OK (Node g (Some x) []) => text_eqb g (T "TAXYEAR") && text_eqb x (dec_of_N n)
   | _ => false
   end.
-Lemma year_sweep : forallb year_ok (map N.of_nat (seq 1000 9000)) = true.
+Definition small (lo n : nat) : list N := map N.of_nat (seq lo n).
+(** 1000 .. 9999 as hundreds x units (no large nat literal) *)
+Definition years_swept : list N := flat_map (fun h => map (fun k => 100 * h + k) (small 0 100)) (small 10 90).
+Lemma year_sweep : forallb year_ok years_swept = true.
 Proof. vm_compute. reflexivity. Qed.
+Lemma in_small lo n k : (lo <= N.to_nat k < lo + n)%nat -> In k (small lo n).
+Proof. intros R. apply in_map_iff. exists (N.to_nat k). split; [apply N2Nat.id|]. apply in_seq. exact R. Qed.
 Lemma taxyear_plain n : 1000 <= n < 10000 ->
   taxyear_elem tax_len (dec_of_N n) = OK (Node (T "TAXYEAR") (Some (dec_of_N n)) []).
 Proof.
   intros R. pose proof year_sweep as S. rewrite forallb_forall in S.
-  specialize (S n). assert (I : In n (map N.of_nat (seq 1000 9000))).
-  { apply in_map_iff. exists (N.to_nat n). split; [apply N2Nat.id|]. apply in_seq. lia. }
-  specialize (S I). unfold year_ok in S.
+  assert (D : n = 100 * (n / 100) + n mod 100) by (apply N.div_mod; discriminate).
+  assert (B1 : 10 <= n / 100 < 100) by (split; [apply N.div_le_lower_bound; lia | apply N.div_lt_upper_bound; lia]).
+  assert (B2 : n mod 100 < 100) by (apply N.mod_lt; discriminate).
+  assert (I : In n years_swept).
+  { set (h := n / 100) in *. set (m := n mod 100) in *. clearbody h m.
+    apply in_flat_map. exists h. split; [apply in_small; lia|].
+    apply in_map_iff. exists m. split; [symmetry; exact D|apply in_small; lia]. }
+  specialize (S n I). unfold year_ok in S.
   destruct (taxyear_elem tax_len (dec_of_N n)) as [[g [x|] [|? ?]]|]; try discriminate.
   apply andb_true_iff in S. destruct S as [S1 S2]. apply text_eqb_eq in S1, S2. subst. reflexivity.
+Qed.
+
+(* ------------------------------------------------------------------ statements assembled for Props/C06 *)
+Definition no_signon (l : list etree) : Prop := Forall (fun n => text_eqb (tag_of n) (T "SIGNONMSGSRQV1") = false) l.
+
+Lemma one_signon_all :
+  (forall c uuids d pw gen reqs r, request_statements c uuids d pw gen reqs = OK r ->
+     exists rest, c_body r = Node (T "OFX") None (spec_signon c d (userid c) pw :: rest) /\ no_signon rest)
+  /\ (forall c uuids d pw dt gen r, request_accounts c uuids d pw dt gen = OK r ->
+     exists rest, c_body r = Node (T "OFX") None (spec_signon c d (userid c) pw :: rest) /\ no_signon rest)
+  /\ (forall c uuids d pw ys an rid gen r, request_tax1099 c uuids d pw ys an rid gen = OK r ->
+     exists rest, c_body r = Node (T "OFX") None (spec_signon c d (userid c) pw :: rest) /\ no_signon rest)
+  /\ (forall c uuids d dp ov oc gen r, request_profile c uuids d dp ov oc gen = OK r ->
+     exists rest, c_body r = Node (T "OFX") None (spec_signon c d auth_placeholder auth_placeholder :: rest) /\ no_signon rest).
+Proof.
+  split; [exact statements_one_signon|]. split; [|split].
+  - intros * H. apply accounts_closed in H. destruct H as [u [rest [_ [E _]]]]. eexists. split; [exact E|].
+    constructor; [vm_compute; reflexivity|constructor].
+  - intros * H. apply tax_closed in H. destruct H as [u [rest [len [ys' [_ [_ [_ [E _]]]]]]]]. eexists. split; [exact E|].
+    constructor; [vm_compute; reflexivity|constructor].
+  - intros * H. apply profile_closed in H. destruct H as [u [rest [_ [E _]]]]. eexists. split; [exact E|].
+    constructor; [vm_compute; reflexivity|constructor].
+Qed.
+
+(** the header of every composed request is the v1 or v2 header text for the effective version *)
+Definition header_for (ver : N) (h : text) : Prop :=
+  exists nf, (ver / 100 = 1 /\ h = header_v1 ver nf) \/ (ver / 100 = 2 /\ In ver hdr_v2_versions /\ h = header_v2 ver nf).
+Lemma header_all :
+  (forall c uuids d pw gen reqs r, request_statements c uuids d pw gen reqs = OK r -> header_for (version c) (c_header r))
+  /\ (forall c uuids d pw dt gen r, request_accounts c uuids d pw dt gen = OK r -> header_for (version c) (c_header r))
+  /\ (forall c uuids d pw ys an rid gen r, request_tax1099 c uuids d pw ys an rid gen = OK r -> header_for (version c) (c_header r))
+  /\ (forall c uuids d dp ov oc gen r, request_profile c uuids d dp ov oc gen = OK r -> header_for (dflt ov (version c)) (c_header r)).
+Proof.
+  split; [|split; [|split]]; intros * H.
+  - apply statements_closed in H. destruct H as [? [? [? [? [? [? [_ [_ [_ [_ [_ [_ [_ [E _]]]]]]]]]]]]]]. eapply header_text_ok, E.
+  - apply accounts_closed in H. destruct H as [? [? [_ [_ [E _]]]]]. eapply header_text_ok, E.
+  - apply tax_closed in H. destruct H as [? [? [? [? [_ [_ [_ [_ [E _]]]]]]]]]. eapply header_text_ok, E.
+  - apply profile_closed in H. destruct H as [? [? [_ [_ [E _]]]]]. eapply header_text_ok, E.
+Qed.
+
+(** nothing is composed for a version >= 200 without end tags *)
+Lemma refusal_all :
+  (forall a, dflt (a_close_elements a) d_close_elements = false -> 200 <= dflt (a_version a) d_version -> client_init a = Err Reject)
+  /\ (forall c ov oc nf body, dflt oc (close_elements c) = false -> 200 <= dflt ov (version c) ->
+        is_ok (serialize c ov oc nf body) = false)
+  /\ (forall c uuids d pw gen reqs r, request_statements c uuids d pw gen reqs = OK r -> close_elements c = true \/ version c < 200)
+  /\ (forall c uuids d pw dt gen r, request_accounts c uuids d pw dt gen = OK r -> close_elements c = true \/ version c < 200)
+  /\ (forall c uuids d pw ys an rid gen r, request_tax1099 c uuids d pw ys an rid gen = OK r -> close_elements c = true \/ version c < 200)
+  /\ (forall c uuids d dp ov oc gen r, request_profile c uuids d dp ov oc gen = OK r ->
+        dflt oc (close_elements c) = true \/ dflt ov (version c) < 200).
+Proof.
+  assert (G : forall b v, negb b && (200 <=? v) = false -> b = true \/ v < 200).
+  { intros [|] v E; [left; reflexivity|right]. cbn [negb andb] in E. apply N.leb_gt in E. exact E. }
+  split; [exact client_init_refuses|]. split; [exact serialize_refuses|].
+  split; [|split; [|split]]; intros * H; apply G.
+  - apply statements_closed in H. destruct H as [? [? [? [? [? [? [_ [_ [_ [_ [_ [_ [_ [_ E]]]]]]]]]]]]]]. exact E.
+  - apply accounts_closed in H. destruct H as [? [? [_ [_ [_ E]]]]]. exact E.
+  - apply tax_closed in H. destruct H as [? [? [? [? [_ [_ [_ [_ [_ E]]]]]]]]]. exact E.
+  - apply profile_closed in H. destruct H as [? [? [_ [_ [_ E]]]]]. exact E.
+Qed.
+
+Lemma wrappers_carry :
+  (forall c a t s e i u, let w := Some (spec_wrapper c (StmtRq a t s e i) u) in
+     tag_of (spec_wrapper c (StmtRq a t s e i) u) = T "STMTTRNRQ"
+     /\ val (sub "TRNUID" w) = norm (Some u)
+     /\ val (sub "BANKID" (sub "BANKACCTFROM" (sub "STMTRQ" w))) = norm (bankid c)
+     /\ val (sub "ACCTID" (sub "BANKACCTFROM" (sub "STMTRQ" w))) = norm a
+     /\ val (sub "ACCTTYPE" (sub "BANKACCTFROM" (sub "STMTRQ" w))) = keep t
+     /\ val (sub "DTSTART" (sub "INCTRAN" (sub "STMTRQ" w))) = dtext s
+     /\ val (sub "DTEND" (sub "INCTRAN" (sub "STMTRQ" w))) = dtext e
+     /\ val (sub "INCLUDE" (sub "INCTRAN" (sub "STMTRQ" w))) = flag i)
+  /\ (forall a s e i u c, let w := Some (spec_wrapper c (CcStmtRq a s e i) u) in
+     tag_of (spec_wrapper c (CcStmtRq a s e i) u) = T "CCSTMTTRNRQ"
+     /\ val (sub "TRNUID" w) = norm (Some u)
+     /\ val (sub "ACCTID" (sub "CCACCTFROM" (sub "CCSTMTRQ" w))) = norm a
+     /\ val (sub "DTSTART" (sub "INCTRAN" (sub "CCSTMTRQ" w))) = dtext s
+     /\ val (sub "DTEND" (sub "INCTRAN" (sub "CCSTMTRQ" w))) = dtext e
+     /\ val (sub "INCLUDE" (sub "INCTRAN" (sub "CCSTMTRQ" w))) = flag i)
+  /\ (forall c a s e d i oo p b u, let w := Some (spec_wrapper c (InvStmtRq a s e d i oo p b) u) in
+     tag_of (spec_wrapper c (InvStmtRq a s e d i oo p b) u) = T "INVSTMTTRNRQ"
+     /\ val (sub "TRNUID" w) = norm (Some u)
+     /\ val (sub "BROKERID" (sub "INVACCTFROM" (sub "INVSTMTRQ" w))) = norm (brokerid c)
+     /\ val (sub "ACCTID" (sub "INVACCTFROM" (sub "INVSTMTRQ" w))) = norm a
+     /\ sub "INCTRAN" (sub "INVSTMTRQ" w) = (match i with Some true => Some (inctran_node s e i) | _ => None end)
+     /\ val (sub "INCOO" (sub "INVSTMTRQ" w)) = flag oo
+     /\ val (sub "DTASOF" (sub "INCPOS" (sub "INVSTMTRQ" w))) = dtext d
+     /\ val (sub "INCLUDE" (sub "INCPOS" (sub "INVSTMTRQ" w))) = flag p
+     /\ val (sub "INCBAL" (sub "INVSTMTRQ" w)) = flag b)
+  /\ (forall c a t s e u, let w := Some (spec_wrapper c (StmtEndRq a t s e) u) in
+     tag_of (spec_wrapper c (StmtEndRq a t s e) u) = T "STMTENDTRNRQ"
+     /\ val (sub "TRNUID" w) = norm (Some u)
+     /\ val (sub "BANKID" (sub "BANKACCTFROM" (sub "STMTENDRQ" w))) = norm (bankid c)
+     /\ val (sub "ACCTID" (sub "BANKACCTFROM" (sub "STMTENDRQ" w))) = norm a
+     /\ val (sub "ACCTTYPE" (sub "BANKACCTFROM" (sub "STMTENDRQ" w))) = keep t
+     /\ val (sub "DTSTART" (sub "STMTENDRQ" w)) = dtext s
+     /\ val (sub "DTEND" (sub "STMTENDRQ" w)) = dtext e)
+  /\ (forall c a s e u, let w := Some (spec_wrapper c (CcStmtEndRq a s e) u) in
+     tag_of (spec_wrapper c (CcStmtEndRq a s e) u) = T "CCSTMTENDTRNRQ"
+     /\ val (sub "TRNUID" w) = norm (Some u)
+     /\ val (sub "ACCTID" (sub "CCACCTFROM" (sub "CCSTMTENDRQ" w))) = norm a
+     /\ val (sub "DTSTART" (sub "CCSTMTENDRQ" w)) = dtext s
+     /\ val (sub "DTEND" (sub "CCSTMTENDRQ" w)) = dtext e).
+Proof.
+  split; [exact stmt_wrapper_carries|]. split; [exact ccstmt_wrapper_carries|]. split; [exact invstmt_wrapper_carries|].
+  split; [exact stmtend_wrapper_carries|exact ccstmtend_wrapper_carries].
+Qed.
+
+Lemma tax_exact c uuids d pw years acctnum recid gen r :
+  request_tax1099 c uuids d pw years acctnum recid gen = OK r ->
+  exists u rest ys,
+    uuids = u :: rest /\ taxyear_elems tax_len years = OK ys
+    /\ c_body r = Node (T "OFX") None
+         [spec_signon c d (userid c) pw;
+          Node (T "TAX1099MSGSRQV1") None
+            [wrapper "TAX1099TRNRQ" u
+               (Node (T "TAX1099RQ") None
+                  (leaf (T "ACCTNUM") (norm acctnum) ++ leaf (T "RECID") (norm recid) ++ ys))]]%list.
+Proof.
+  intros H. apply tax_closed in H. destruct H as [u [rest [len [ys [E [EL [HY [Eb _]]]]]]]].
+  exists u, rest, ys. split; [exact E|]. split; [|exact Eb]. unfold tax_len. rewrite EL. exact HY.
+Qed.
+Lemma taxyears_plain ns :
+  Forall (fun n => 1000 <= n < 10000) ns ->
+  taxyear_elems tax_len (map dec_of_N ns) = OK (map (fun n => Node (T "TAXYEAR") (Some (dec_of_N n)) []) ns).
+Proof.
+  induction 1 as [|n ns R _ IH]; [reflexivity|]. cbn [map taxyear_elems]. rewrite (taxyear_plain n R). cbn [bind]. rewrite IH. reflexivity.
 Qed.
